@@ -38,7 +38,15 @@ Agree(t) == \A w \in Words : Matches(t, w) = Accepts(t, w)
 EmptinessOk(t) == LET ne == NonEmpty(t) IN
                   /\ (\E w \in Words : Matches(t, w)) => ne
                   /\ (ne /\ Cardinality(ReachFrom(t, TermReps(t), RInit(t))) <= WordLen + 1) => \E w \in Words : Matches(t, w)
-Judge(t) == IF Agree(t) /\ EmptinessOk(t) THEN TRUE ELSE PrintT(<<"SPECBUG", t>>) /\ FALSE
+(* leftmost-shortest search vs the SMT-LIB clause on Matches: over all subjects of length <= 3 *)
+Subjects == WordsOf(3)
+ReplaceOk(t) ==
+  \A s \in Subjects :
+     LET cands == {p \in (0..Len(s)) \X (0..Len(s)) : p[1] <= p[2] /\ Matches(t, SubSeq(s, p[1] + 1, p[2]))}
+         best  == CHOOSE p \in cands : \A o \in cands : p[1] < o[1] \/ (p[1] = o[1] /\ p[2] <= o[2])
+         m     == LeftmostFrom(t, s, 0, 0)
+     IN IF cands = {} THEN m = <<-1, -1>> ELSE m = best
+Judge(t) == IF Agree(t) /\ EmptinessOk(t) /\ ReplaceOk(t) THEN TRUE ELSE PrintT(<<"SPECBUG", t>>) /\ FALSE
 Next == l <= NT /\ Judge(All[l]) /\ l' = l + K
 
 (* SMT-LIB's literal definitions of the derived constructors vs Core's loop-range shortcuts *)
